@@ -10,8 +10,16 @@
 //! between the name and the `(` of a function-like `#define`. Boundaries inside a directive line take no trivia that
 //! contains a newline (that would end the directive, it is not an insertion inside the line).
 //!
+//! The comment kinds come with two contents: plain ASCII (`/*c*/`, `//c`) and multi-byte UTF-8 text (one 2-byte, one
+//! 3-byte and one 4-byte character); a non-ASCII comment that fails where its plain twin fails too is reported under
+//! the plain kind's signature (same root cause), otherwise under `trivia|non-ascii-comment|<kind>|<effect>`.
+//!
 //! Part 2 (line shift): for every rejected program, every file, every logical line start j and k = 0..=50: insert k
-//! blank lines (and k `// c` lines) at j. Every located message at (file, line ≥ j) must move to line + k; everything
+//! lines at j, for every kind of line in FILLERS (blank; `// c`; comment lines, line and block shape, whose text is
+//! multi-byte UTF-8: byte offsets and character counts differ in front of the diagnosed construct; thorough adds each
+//! character width on its own, an indented shape and CRLF variants). A failure that happens only with non-ASCII
+//! comment text (the plain comment of the same shape conforms for the same j and k) has the signature
+//! `lineshift|non-ascii-comment-line|<stage>|<line|column|message|echo|file|verdict>`. Every located message at (file, line ≥ j) must move to line + k; everything
 //! else (other files, earlier lines, column, message, echoed source text, caret line, number of messages) must be
 //! unchanged. For errors inside included files (and inside macro bodies / macro arguments written in another file)
 //! the primary message must name the file that contains the offending text and the line of that text within it.
@@ -343,7 +351,32 @@ pub fn directive_info(toks: &[Tk]) -> DirInfo {
     DirInfo { dir, dirs }
 }
 
-pub const KINDS: [(&str, &str); 6] = [("space", " "), ("tab", "\t"), ("newline", "\n"), ("block-comment", "/*c*/"), ("line-comment", "//c\n"), ("splice", "\\\n")];
+/// Trivia kinds. The first `ASCII_KINDS` are the original plain kinds (also the ones used for pairs); the others add
+/// the *content* dimension of comments: comment text made of multi-byte UTF-8 characters (one 2-byte, one 3-byte and
+/// one 4-byte character; comments and strings are the only places where the lexer takes non-ASCII bytes).
+pub const KINDS: [(&str, &str); 8] = [
+    ("space", " "),
+    ("tab", "\t"),
+    ("newline", "\n"),
+    ("block-comment", "/*c*/"),
+    ("line-comment", "//c\n"),
+    ("splice", "\\\n"),
+    ("block-comment-utf8", "/*\u{e9}\u{2014}\u{1d6d1}*/"),
+    ("line-comment-utf8", "//\u{e9}\u{2014}\u{1d6d1}\n"),
+];
+pub const ASCII_KINDS: usize = 6;
+/// kinds of the single-insertion space: quick = the plain kinds + the non-ASCII block comment, thorough = all
+pub fn single_kinds(quick: bool) -> usize {
+    if quick { 7 } else { 8 }
+}
+/// the plain kind with the same shape as a non-ASCII kind (used to attribute a failure: content or shape?)
+pub fn ascii_twin_kind(k: usize) -> Option<usize> {
+    match KINDS[k].0 {
+        "block-comment-utf8" => Some(3),
+        "line-comment-utf8" => Some(4),
+        _ => None,
+    }
+}
 
 #[derive(Clone, Debug)]
 pub struct Boundary {
@@ -682,9 +715,21 @@ pub fn check_trivia(pp: &Prepared, ins: &[Ins], acc: &mut Acc) {
             let around = format!("{} byte {} `{}⟨{}⟩{}`{}", p.files[f].0, off, one_line(&t[lo..off], 40), esc_trivia(KINDS[k].1), one_line(&t[off..hi], 40), if b.in_directive { " (inside a directive)" } else { "" });
             (b, around)
         };
+        // content or shape? A non-ASCII comment that fails where the plain comment of the same shape fails too is the
+        // same root cause as the plain one and gets its signature; one that fails where the plain comment conforms is
+        // a failure of the comment text, whatever the neighbouring tokens: keyed by kind and effect only
         let sig_of = |i: &Ins, what: &str| -> String {
             let (b, _) = describe(i);
-            format!("trivia|{}|{}|{}|{}", KINDS[i.2].0, b.sig_before, b.sig_after, what)
+            let mut kind = KINDS[i.2].0;
+            if let Some(t) = ascii_twin_kind(i.2) {
+                let twin = run_files(p, &apply(&p.files, &[(i.0, i.1, t)]));
+                if trivia_verdict(&pp.base, &twin).is_some() {
+                    kind = KINDS[t].0;
+                } else {
+                    return format!("trivia|non-ascii-comment|{}|{}", kind, what);
+                }
+            }
+            format!("trivia|{}|{}|{}|{}", kind, b.sig_before, b.sig_after, what)
         };
         let places: Vec<String> = ins.iter().map(|i| describe(i).1).collect();
         let (signature, detail, replay) = match (&culprit, ins.len()) {
@@ -721,47 +766,74 @@ pub fn line_starts(text: &str) -> Vec<(usize, u32)> {
     v
 }
 
-pub const FILLERS: [(&str, &str); 3] = [("blank", "\n"), ("comment", "// c\n"), ("blank-crlf", "\r\n")];
-
-fn lineshift_replay(p: &Program, f: usize, line: u32, k: usize, filler: usize) -> String {
-    format!("kind: lineshift\n{}lines: {}\t{}\t{}\t{}\n{}", replay_head(p), p.files[f].0, line, k, FILLERS[filler].0, replay_files(p))
+/// One kind of inserted line. `text` is exactly one line (ends with its line ending).
+pub struct Filler {
+    pub name: &'static str,
+    pub text: &'static str,
+    /// part of the quick tier (the thorough tier runs all)
+    pub quick: bool,
+    /// the plain-ASCII filler of the same shape, for fillers whose comment text is not ASCII
+    pub ascii_twin: Option<&'static str>,
 }
 
-/// insert k filler lines at logical line start `line` of file f and compare the diagnostics
-pub fn check_lineshift(pp: &Prepared, f: usize, off: usize, line: u32, k: usize, filler: usize, acc: &mut Acc) {
-    let p = &pp.p;
-    let base = match &pp.base {
-        Out::Err(e) => e,
-        _ => return,
-    };
-    let mut files = p.files.clone();
-    files[f].1.insert_str(off, &FILLERS[filler].1.repeat(k));
-    acc.evals += 1;
-    let var = run_files(p, &files);
-    let fail = |what: &str, detail: String, acc: &mut Acc| {
-        acc.violation(Violation {
-            signature: format!("lineshift|{}|{}", pp.class, what),
-            detail: format!("{} [{}]: {} {} line(s) inserted before line {} of {}: {}", p.name, p.cfg.name(), k, FILLERS[filler].0, line, p.files[f].0, detail),
-            replay: lineshift_replay(p, f, line, k, filler),
-        });
-    };
+/// Inserted lines = shape {blank, line comment, block comment on its own line, indented line comment} x comment text
+/// {ASCII, one 2-byte / 3-byte / 4-byte UTF-8 character, all three} x line ending {LF, CRLF (CRLF programs only)}.
+/// Quick runs the blank line, the plain comment and, for both comment shapes, the text with all three multi-byte
+/// characters; thorough adds every character width on its own, the indented shape and the CRLF variants.
+pub const FILLERS: [Filler; 11] = [
+    Filler { name: "blank", text: "\n", quick: true, ascii_twin: None },
+    Filler { name: "comment", text: "// c\n", quick: true, ascii_twin: None },
+    Filler { name: "blank-crlf", text: "\r\n", quick: true, ascii_twin: None },
+    Filler { name: "comment-utf8", text: "// \u{e9}\u{2014}\u{1d6d1}\n", quick: true, ascii_twin: Some("comment") },
+    Filler { name: "block-comment-utf8", text: "/* \u{e9}\u{2014}\u{1d6d1} */\n", quick: true, ascii_twin: Some("block-comment") },
+    Filler { name: "block-comment", text: "/* c */\n", quick: false, ascii_twin: None },
+    Filler { name: "comment-2-byte-char", text: "// \u{e9}\n", quick: false, ascii_twin: Some("comment") },
+    Filler { name: "comment-3-byte-char", text: "// \u{2014}\n", quick: false, ascii_twin: Some("comment") },
+    Filler { name: "comment-4-byte-char", text: "// \u{1d6d1}\n", quick: false, ascii_twin: Some("comment") },
+    Filler { name: "indented-comment-utf8", text: "  // \u{b5} \u{a9}\n", quick: false, ascii_twin: Some("comment") },
+    Filler { name: "comment-utf8-crlf", text: "// \u{e9}\u{2014}\u{1d6d1}\r\n", quick: false, ascii_twin: Some("comment") },
+];
+
+fn filler_index(name: &str) -> Option<usize> {
+    FILLERS.iter().position(|f| f.name == name)
+}
+
+fn lineshift_replay(p: &Program, f: usize, line: u32, k: usize, filler: usize) -> String {
+    format!("kind: lineshift\n{}lines: {}\t{}\t{}\t{}\n{}", replay_head(p), p.files[f].0, line, k, FILLERS[filler].name, replay_files(p))
+}
+
+/// `off` (a line start of file f) is a token boundary of the lexed part of the file
+fn block_comment_line_fits(pp: &Prepared, f: usize, off: usize) -> bool {
+    match &pp.lexed[f] {
+        Ok(lx) => off <= lx.lexed_len && (off == lx.lexed_len || lx.toks.binary_search_by_key(&off, |t| t.start).is_ok()),
+        Err(_) => false,
+    }
+}
+
+/// stage of an error class (`typer:UnknownIdentifier` -> `typer`)
+fn stage_of(class: &str) -> &str {
+    let st = class.split(':').next().unwrap_or(class);
+    match st {
+        "lexer" | "preprocess" | "parser" | "typer" | "layout" | "backend" => st,
+        _ => "other",
+    }
+}
+
+/// The line-shift oracle proper: `base` is the diagnostic of the original files, `var` the outcome after k lines were
+/// inserted at logical line start `line` of file `fname`. None = conforms; Some((what, detail, a message had to move)).
+fn lineshift_verdict(base: &str, var: &Out, fname: &str, line: u32, k: usize) -> Result<bool, (&'static str, String)> {
     let var = match var {
         Out::Err(e) => e,
-        o => {
-            fail("verdict", format!("rejected before, {} after: {}", o.tag(), one_line(o.text(), 160)), acc);
-            return;
-        }
+        o => return Err(("verdict", format!("rejected before, {} after: {}", o.tag(), one_line(o.text(), 160)))),
     };
     let mb = parse_diag(base);
-    let mv = parse_diag(&var);
-    acc.outcome(&("lineshift", p.name.as_str(), p.cfg, &files));
+    let mv = parse_diag(var);
     if mb.len() != mv.len() {
-        fail("message", format!("{} messages before, {} after; before `{}` after `{}`", mb.len(), mv.len(), one_line(base, 200), one_line(&var, 200)), acc);
-        return;
+        return Err(("message", format!("{} messages before, {} after; before `{}` after `{}`", mb.len(), mv.len(), one_line(base, 200), one_line(var, 200))));
     }
     let mut moved = false;
     for (b, v) in mb.iter().zip(mv.iter()) {
-        let shift = b.file.as_deref() == Some(p.files[f].0.as_str()) && b.line >= line;
+        let shift = b.file.as_deref() == Some(fname) && b.line >= line;
         let want_line = if shift { b.line + k as u32 } else { b.line };
         moved |= shift && k > 0;
         let what = if b.file != v.file {
@@ -777,7 +849,7 @@ pub fn check_lineshift(pp: &Prepared, f: usize, off: usize, line: u32, k: usize,
         } else {
             continue;
         };
-        fail(
+        return Err((
             what,
             format!(
                 "expected {}:{}:{}: {}: {} / `{}`, got {}:{}:{}: {}: {} / `{}`",
@@ -794,14 +866,50 @@ pub fn check_lineshift(pp: &Prepared, f: usize, off: usize, line: u32, k: usize,
                 v.text,
                 one_line(&v.echo, 80)
             ),
-            acc,
-        );
-        return;
+        ));
     }
-    if moved {
-        acc.count("lineshift_cases_where_a_message_had_to_move");
-    } else {
-        acc.count("lineshift_cases_where_nothing_had_to_move");
+    Ok(moved)
+}
+
+/// insert k filler lines at logical line start `line` of file f and compare the diagnostics
+pub fn check_lineshift(pp: &Prepared, f: usize, off: usize, line: u32, k: usize, filler: usize, acc: &mut Acc) {
+    let p = &pp.p;
+    let base = match &pp.base {
+        Out::Err(e) => e,
+        _ => return,
+    };
+    let with = |filler: usize| -> Vec<(String, String)> {
+        let mut files = p.files.clone();
+        files[f].1.insert_str(off, &FILLERS[filler].text.repeat(k));
+        files
+    };
+    let files = with(filler);
+    acc.evals += 1;
+    let var = run_files(p, &files);
+    if matches!(var, Out::Err(_)) {
+        acc.outcome(&("lineshift", p.name.as_str(), p.cfg, &files));
+    }
+    match lineshift_verdict(base, &var, &p.files[f].0, line, k) {
+        Ok(true) => acc.count("lineshift_cases_where_a_message_had_to_move"),
+        Ok(false) => acc.count("lineshift_cases_where_nothing_had_to_move"),
+        Err((what, detail)) => {
+            // content or shape? A non-ASCII comment line that fails where the same number of plain comment lines of the
+            // same shape conforms is a failure of its own class (one root cause whatever the error class of the program:
+            // keyed by the stage only); otherwise it is the class the plain filler reports
+            let mut signature = format!("lineshift|{}|{}", pp.class, what);
+            if let Some(t) = FILLERS[filler].ascii_twin.and_then(filler_index) {
+                let twin = run_files(p, &with(t));
+                if lineshift_verdict(base, &twin, &p.files[f].0, line, k).is_ok() {
+                    signature = format!("lineshift|non-ascii-comment-line|{}|{}", stage_of(&pp.class), what);
+                    acc.count("lineshift_failures_only_with_non_ascii_comment_text");
+                }
+            }
+            acc.violation(Violation {
+                signature,
+                detail: format!("{} [{}]: {} {} line(s) `{}` inserted before line {} of {}: {}", p.name, p.cfg.name(), k, FILLERS[filler].name, esc_trivia(FILLERS[filler].text).replace("\r", "\\r"), line, p.files[f].0, detail),
+                replay: lineshift_replay(p, f, line, k, filler),
+            });
+        }
     }
 }
 
@@ -861,7 +969,7 @@ pub fn prepare(p: Program) -> Prepared {
 }
 
 /// all single insertions of a program that the property covers
-pub fn single_insertions(pp: &Prepared) -> (Vec<Ins>, BTreeMap<String, u64>) {
+pub fn single_insertions(pp: &Prepared, nkinds: usize) -> (Vec<Ins>, BTreeMap<String, u64>) {
     let mut v = Vec::new();
     let mut skipped = BTreeMap::new();
     for (f, bs) in pp.bounds.iter().enumerate() {
@@ -870,7 +978,7 @@ pub fn single_insertions(pp: &Prepared) -> (Vec<Ins>, BTreeMap<String, u64>) {
                 *skipped.entry(format!("excepted_by_the_property:{}", e)).or_insert(0) += 1;
                 continue;
             }
-            for (k, (_, text)) in KINDS.iter().enumerate() {
+            for (k, (_, text)) in KINDS.iter().enumerate().take(nkinds) {
                 if b.in_directive && text.ends_with('\n') && *text != "\\\n" {
                     *skipped.entry("newline_kinds_inside_directive_lines".to_string()).or_insert(0) += 1;
                     continue;
@@ -1595,7 +1703,7 @@ pub fn run(ctx: &Ctx) -> i32 {
     if std::env::var("C14_LIST").is_ok() {
         for p in core(ctx.quick()) {
             let pp = prepare(p);
-            let nb: usize = single_insertions(&pp).0.len();
+            let nb: usize = single_insertions(&pp, single_kinds(ctx.quick())).0.len();
             let t0 = std::time::Instant::now();
             for _ in 0..10 {
                 let _ = run_files(&pp.p, &pp.p.files);
@@ -1613,8 +1721,10 @@ pub fn run(ctx: &Ctx) -> i32 {
     let mut rep = Report::new("model_checking");
     let bound = ctx.pick(1usize, 2usize);
     rep.rule = format!(
-        "E3: default execution = the unmodified program; deviation = one trivia insertion (6 kinds) at one token boundary of one file; every execution with at most {} deviations is compiled and compared with the default; plus k = 0..=50 inserted lines (2 fillers) at every logical line start of every file of every rejected program. Non-trivial = the deviated/shifted program was really compiled (insertions that a neighbouring token absorbs are not counted); distinct = distinct (program, target, deviated file contents)",
-        bound
+        "E3: default execution = the unmodified program; deviation = one trivia insertion ({} kinds for single insertions: space, tab, newline, block comment, line comment, splice and comments whose text is multi-byte UTF-8; the 6 plain kinds for pairs) at one token boundary of one file; every execution with at most {} deviations is compiled and compared with the default; plus k = 0..=50 inserted lines ({} kinds of line: blank, line/block comment with ASCII and with 2/3/4-byte UTF-8 text, CRLF variants for CRLF programs) at every logical line start of every file of every rejected program. Non-trivial = the deviated/shifted program was really compiled (insertions that a neighbouring token absorbs are not counted); distinct = distinct (program, target, deviated file contents)",
+        single_kinds(ctx.quick()),
+        bound,
+        FILLERS.iter().filter(|f| !ctx.quick() || f.quick).count()
     );
     let programs = core(ctx.quick());
     let n_programs = programs.len();
@@ -1641,6 +1751,13 @@ pub fn run(ctx: &Ctx) -> i32 {
         prepared.lock().unwrap().insert(idx as usize, pp);
     });
     rep.absorb("default_executions", r);
+    let timing = std::env::var("C14_TIMING").is_ok();
+    let phase = |what: &str| {
+        if timing {
+            eprintln!("[C14 timing] {} done at {:.1}s", what, ctx.start.elapsed().as_secs_f64());
+        }
+    };
+    phase("default executions");
     let prepared: Vec<Prepared> = prepared.into_inner().unwrap().into_values().collect();
     if prepared.len() != n_programs {
         eprintln!("machinery error: default executions incomplete");
@@ -1667,17 +1784,33 @@ pub fn run(ctx: &Ctx) -> i32 {
     let r = run_par(ctx, ltasks.len() as u64, 2, |idx, acc| {
         let (i, f, off, line) = ltasks[idx as usize];
         for filler in 0..FILLERS.len() {
-            // CRLF filler lines only for programs that use CRLF line endings
-            if FILLERS[filler].1.contains('\r') && !prepared[i].p.files.iter().any(|f| f.1.contains('\r')) {
+            if ctx.quick() && !FILLERS[filler].quick {
                 continue;
             }
+            // CRLF filler lines only for programs that use CRLF line endings
+            if FILLERS[filler].text.contains('\r') && !prepared[i].p.files.iter().any(|f| f.1.contains('\r')) {
+                continue;
+            }
+            // a block comment line is trivia only where a token can start: not at a line start inside a block comment
+            // that spans lines (its `*/` would close that comment), nor in the part behind a lexer error
+            if FILLERS[filler].text.starts_with("/*") && !block_comment_line_fits(&prepared[i], f, off) {
+                acc.count("lineshift_block_comment_lines_not_inserted_inside_a_token_or_unlexed_text");
+                continue;
+            }
+            // quick: the non-ASCII fillers use the k values {0, 1, 2, 3, 7, 50} (a byte/character mix-up shows with one
+            // line); the plain fillers and the thorough tier use every k in 0..=50
+            let thin = ctx.quick() && FILLERS[filler].ascii_twin.is_some();
             for k in 0..=50usize {
+                if thin && !matches!(k, 0 | 1 | 2 | 3 | 7 | 50) {
+                    continue;
+                }
                 check_lineshift(&prepared[i], f, off, line, k, filler, acc);
             }
         }
     });
     let shifts = r.acc.evals;
     rep.absorb("lineshift_insertion_points", r);
+    phase("lineshift");
 
     // part 2b: positions inside included files / macro expansions
     let with_expect: Vec<usize> = (0..prepared.len()).filter(|i| prepared[*i].p.expect_at.is_some()).collect();
@@ -1694,7 +1827,7 @@ pub fn run(ctx: &Ctx) -> i32 {
             continue;
         }
         boundaries_total += pp.bounds.iter().map(|b| b.len() as u64).sum::<u64>();
-        let (ins, skipped) = single_insertions(pp);
+        let (ins, skipped) = single_insertions(pp, single_kinds(ctx.quick()));
         for (k, n) in skipped {
             *skipped_total.entry(k).or_insert(0) += n;
         }
@@ -1712,6 +1845,7 @@ pub fn run(ctx: &Ctx) -> i32 {
     });
     let singles = r.acc.evals;
     rep.absorb("trivia_single_insertions", r);
+    phase("single insertions");
 
     // part 1, two deviations (thorough): all pairs for the smaller programs, capped by a fixed case count
     let mut pair_cases = 0u64;
@@ -1732,7 +1866,8 @@ pub fn run(ctx: &Ctx) -> i32 {
             if matches!(pp.base, Out::Panic(_)) {
                 continue;
             }
-            let (ins, _) = single_insertions(pp);
+            // pairs: the plain kinds only (the pair space is the one of the earlier rounds)
+            let (ins, _) = single_insertions(pp, ASCII_KINDS);
             let n = ins.len() as u64;
             let pairs = n * n.saturating_sub(1) / 2;
             if pair_cases + pairs > cap {
@@ -1779,7 +1914,8 @@ pub fn run(ctx: &Ctx) -> i32 {
     rep.cov("error_classes_hit", Json::Arr(classes.iter().map(|c| c.as_str().into()).collect()));
     rep.cov("error_classes_hit_count", Json::Int(classes.len() as i64));
     rep.cov("token_boundaries", Json::Int(boundaries_total as i64));
-    rep.cov("trivia_kinds", Json::Arr(KINDS.iter().map(|k| k.0.into()).collect()));
+    rep.cov("trivia_kinds", Json::Arr(KINDS.iter().take(single_kinds(ctx.quick())).map(|k| k.0.into()).collect()));
+    rep.cov("lineshift_fillers", Json::Arr(FILLERS.iter().filter(|f| !ctx.quick() || f.quick).map(|f| f.name.into()).collect()));
     rep.cov("boundaries_not_deviated", Json::Obj(skipped_total.iter().map(|(k, v)| (k.clone(), Json::Int(*v as i64))).collect()));
     rep.cov("deviation_bound_completed", Json::Int(if rep.exhaustive { bound as i64 } else { 1.min(bound) as i64 }));
     rep.cov("states", Json::Int((singles + pair_cases + n_programs as u64) as i64));
@@ -1792,7 +1928,7 @@ pub fn run(ctx: &Ctx) -> i32 {
         .counters
         .keys()
         .filter(|k| k.starts_with("absorbed "))
-        .filter(|k| !(k.contains("-comment after ForwardSlash ") || k.contains(" after Comment ")))
+        .filter(|k| !(((k.starts_with("absorbed block-comment") || k.starts_with("absorbed line-comment")) && k.contains(" after ForwardSlash ")) || k.contains(" after Comment ")))
         .cloned()
         .collect();
     for u in unexpected {
@@ -1803,7 +1939,9 @@ pub fn run(ctx: &Ctx) -> i32 {
         "a boundary between two blank characters is not deviated (nothing adjacent); a boundary inside a directive line takes no trivia that ends the line (newline, line comment); the two exceptions of the property text (directly after `<`/`>`; between the name and `(` of a #define) are not deviated and nothing else is excluded".into(),
         "an insertion that the real lexer does not see as trivia of its own because a neighbouring token absorbs it (`/` followed by an inserted `/*c*/` or `//c` becomes a line comment; text appended to a line comment) is not an insertion of trivia and is skipped; the classes skipped this way are listed in the counters and any other class is a machinery violation".into(),
         "diagnostics have the shape printed by MessagePrinter::write_message (located header + echoed line + caret line, or unlocated header); for rejected programs under trivia insertion only message texts, severities and file names are compared, positions are the subject of the line-shift part".into(),
-        "three or more simultaneous insertions, and insertions inside tokens, are outside the explored space".into(),
+        "comment text: plain ASCII and multi-byte UTF-8 (U+00E9, U+2014, U+1D6D1 = 2, 3 and 4 bytes; U+00B5, U+00A9 in the indented line) are enumerated; the column of a diagnostic is only ever compared with the column of the same diagnostic before the lines were inserted (whether columns count bytes or characters is not judged)".into(),
+        "a block-comment line is inserted only at line starts that are token boundaries of the lexed text (inside a block comment that spans lines its `*/` would end that comment: not trivia there); blank lines and line comments are inserted at every logical line start".into(),
+        "three or more simultaneous insertions, pairs that involve a non-ASCII comment, and insertions inside tokens, are outside the explored space".into(),
     ];
     finish(ctx, rep)
 }
@@ -1862,7 +2000,7 @@ pub fn replay(ctx: &Ctx, body: &str) -> i32 {
             let f: Vec<&str> = v.split('\t').collect();
             if f.len() == 4 {
                 let fi = p.files.iter().position(|x| x.0 == f[0]);
-                let fl = FILLERS.iter().position(|x| x.0 == f[3]);
+                let fl = filler_index(f[3]);
                 if let (Some(fi), Ok(line), Ok(k), Some(fl)) = (fi, f[1].parse::<u32>(), f[2].parse::<usize>(), fl) {
                     lines = Some((fi, line, k, fl));
                 }
